@@ -15,7 +15,7 @@
    the DelayedCall armed with that delay at issue fires"; that the reactor fires it on time is Twisted's business. *)
 From AV Require Import Base.Util Model.Framing Proofs.BrokerClientInv.
 From AV Require Model.BrokerClient.
-From AV Require Import Model.ClientReq Proofs.ClientReqC11 Proofs.ClientReqC11b Proofs.ClientReqC11c Proofs.ClientReqC11d.
+From AV Require Import Model.ClientReq Proofs.ClientReqC11 Proofs.ClientReqC11b Proofs.ClientReqC11c Proofs.ClientReqC11d Proofs.ClientReqErr.
 
 (* Issue: a request that is accepted (the call raises nothing) arms exactly one DelayedCall, with delay
    max(timeout, min_timeout) (timeout alone when no minimum is given); from ANY state, for any node, any flags. *)
@@ -174,6 +174,40 @@ Theorem C11_brokerclients_inv : forall g evs i b,
 Proof. exact c11_brokerclients_inv. Qed.
 Print Assumptions C11_brokerclients_inv.
 
+(* THE MODEL'S "cannot happen" BRANCHES CANNOT HAPPEN.  Model/ClientReq.v emits OErr k where the code has no behaviour to
+   speak of (a Deferred firing for a request nobody made, an operation that is not waiting for the request that fired,
+   a timer to cancel that was never armed, a broker client closed twice, a reply before the request ..).  In every run
+   from a fresh client, over ANY events whose reply frames respect the 2**31-1 length limit, none of them is ever
+   emitted - with the one exception OErr 30, which stands for a metadata response whose abstract payload does not parse
+   reaching _handleMetadataResponse: the event alphabet contains only well-formed ones (the driver builds them), so that
+   branch marks an input outside the alphabet, not a state.  Every theorem above therefore speaks about behaviour the
+   model really defines. *)
+Theorem C11_no_anomaly : forall g evs k,
+  (forall i rid pl, In (EReply i rid pl) evs -> Z.of_nat (length (id4 rid ++ pl)) <= MAX_LENGTH) ->
+  In (OErr k) (snd (run (init g) evs)) -> k = 30.
+Proof. exact c11_no_anomaly. Qed.
+Print Assumptions C11_no_anomaly.
+
+(* Two of the invariants behind it, of interest in themselves.  An unresolved request that was made on behalf of a
+   broker-agnostic operation is THE request that operation is waiting for (so an operation never has two requests - two
+   timers - outstanding, and no request of an operation that has moved on or ended is left unresolved) ... *)
+Theorem C11_operation_request : forall g evs i b h q p,
+  (forall i rid pl, In (EReply i rid pl) evs -> Z.of_nat (length (id4 rid ++ pl)) <= MAX_LENGTH) ->
+  nth_error (c_bcs (fst (run (init g) evs))) i = Some b -> nth_error (b_reqs b) h = Some q -> q_owner q = OfOp p ->
+  ~ In h (BrokerClient.t_fired (BrokerClient.s_t (b_st b))) ->
+  exists o rest, nth_error (c_ops (fst (run (init g) evs))) p = Some o /\ o_phase o = PKnown rest i h.
+Proof. exact c11_operation_request. Qed.
+Print Assumptions C11_operation_request.
+
+(* ... and self.clients maps node ids to DISTINCT broker clients, none of which has been told to close. *)
+Theorem C11_clients_open : forall g evs cl,
+  (forall i rid pl, In (EReply i rid pl) evs -> Z.of_nat (length (id4 rid ++ pl)) <= MAX_LENGTH) ->
+  c_clients (fst (run (init g) evs)) = Some cl ->
+  NoDup (map snd cl) /\ forall n i, In (n, i) cl -> exists b, nth_error (c_bcs (fst (run (init g) evs))) i = Some b
+                                                          /\ BrokerClient.s_down (b_st b) = BrokerClient.DNone.
+Proof. exact c11_clients_open. Qed.
+Print Assumptions C11_clients_open.
+
 (* ------------------------------------------------------------------ non-vacuity *)
 Definition ex_cfg := mkCfg 5000 true 0 0 [1].
 
@@ -229,6 +263,12 @@ Example id_reserved_nonvacuous :
 Proof.
   vm_compute. do 3 eexists. do 4 (split; [reflexivity|]). split; [left; reflexivity|]. split; reflexivity.
 Qed.
+
+(* the exception in C11_no_anomaly is real: a malformed metadata payload handed to load_metadata_for_topics' handler *)
+Example anomaly_30_is_malformed_metadata :
+  snd (run (init ex_cfg_keep) [EUpdate [(1, 5)] false; EOp 1 true; EConnOk 0; EReply 0 1 [9]])
+  = [OConnect 0 5; OSched 0 2 5000; OWrite 0 1; OCancelTimer 0; OErr 30; OOp 0 RTrue].
+Proof. vm_compute. reflexivity. Qed.
 
 Example late_reply_nonvacuous :
   let C := fst (run (init ex_cfg) [EUpdate [(1, 5)] false; ESend 1 true (-1); ESend 1 true 30000; EConnOk 0; ETimer 0]) in
